@@ -112,12 +112,12 @@ def run_C02(ctx, rep):
 
 
 def run_C03(ctx, rep):
-    gen_driver.run_gen(ctx, rep, ['G1G3', 'G3r'], floors={'G1.lat': 20, 'G2.lat': 10, 'G4': 8})
+    gen_driver.run_gen(ctx, rep, ['G1G3', 'G3r.mono'], floors={'G1.lat': 20, 'G2.lat': 10, 'G4': 8, 'G3r': 100})
     lattice_rules.check_L10(ctx, rep)
 
 
 def run_C13(ctx, rep):
-    gen_driver.run_gen(ctx, rep, ['UI', 'G6', 'G5', 'G8', 'G1G3'], floors={'G4.ui': 500, 'G3.ui': 500, 'G6': 15, 'G5': 250, 'G8': 60, 'G1': 300})
+    gen_driver.run_gen(ctx, rep, ['UI', 'G6', 'G5', 'G8', 'G1G3', 'G3r.maint'], floors={'G4.ui': 500, 'G3.ui': 500, 'G6': 15, 'G5': 250, 'G8': 60, 'G1': 300, 'G3r': 100})
 
 
 def run_C14(ctx, rep):
@@ -127,6 +127,8 @@ def run_C14(ctx, rep):
 def run_C04(ctx, rep):
     gen_driver.run_gen(ctx, rep, ['G9', 'G12', 'G1G3', 'UI'], floors={'G9': 20, 'G12': 40})
     gen_driver.run_tv(ctx, rep, only_tags=['agg', 'neg'], floors={'R1': 50})
+    # every index an aggregation / negation reads is maintained for derived rows (and not stale)
+    gen_driver.run_gen(ctx, rep, ['G3r'], only_tags=['agg', 'neg'], floors={'G3r': 20})
     agg_rules.check_L11(ctx, rep)
 
 
@@ -170,7 +172,7 @@ def run_C06(ctx, rep):
     names = ('t_perm_rules', 't_perm_decls', 't_perm_heads', 't_perm_body', 't_renamed', 'generic')
     gen_driver.run_twins(ctx, rep, lambda n, k: n.replace('_par', '') in names, floors={'T.L': 4, 'T.S': 4, 'T.C': 2})
     gen_driver.run_tv(ctx, rep, floors={'R3': 80})
-    gen_driver.run_gen(ctx, rep, ['G12'], floors={'G12': 40})
+    gen_driver.run_gen(ctx, rep, ['G12', 'G3r'], floors={'G12': 40, 'G3r': 100, 'G13': 2})
     lib_rules.check_L13(ctx, rep)
 
 
